@@ -53,7 +53,9 @@ def build(repo, tier):
                         'data is a bytes-like sequence of ints in 0..255; python lists are finite sequences; list == list compares element-wise with ==',
                         'state equality is python ==, i.e. up to notation (expanded patterns are compared)',
                         'symbols are compared up to the renaming name |-> str(id); the renaming is injective by the symbol-table invariant (C03/C04 symbol unit)',
-                        'whole-stream round trip = induction over the call sequence with these per-instruction steps (the induction itself is the loop rule, not re-proved)'],
+                        'whole-stream round trip = induction over the call sequence with these per-instruction steps (the induction itself is the loop rule, not re-proved)',
+                        'Instantiate case: the id list of an Instantiate instruction has pairwise distinct ids (a python dict cannot be serialised otherwise) - stated as a precondition of the dec->enc unit; '
+                        'the function mapped over the plugs is recognised syntactically as a type-asserting identity; operands of pattern constructors are Patterns (dec->enc precondition)'],
                     functions=[(DFILE, 'deserialize_instructions'), (DFILE, 'deserialize_instructions.<locals>.maybe_next_byte'),
                                (DFILE, 'deserialize_instructions.<locals>.next_byte'), (DFILE, 'deserialize_instructions.<locals>.read_list')] +
                               [(SIFILE, 'SerializingInterpreter.' + m) for m in list(METHODS) + ['symbol']] + [(STFILE, 'StatefulInterpreter.' + m) for m in METHODS] + dfn,
